@@ -45,6 +45,7 @@ type askResult struct {
 	err     error
 	resp    []byte
 	took    time.Duration
+	start   time.Time
 }
 
 // buildSSH builds stand-alone SSH swarms on TCP loopback.
@@ -177,7 +178,7 @@ func runAsks(w *stack.World, plans []askPlan, serveLoops int) (results []askResu
 				t0 := time.Now()
 				n, err := w.Nodes[p.asker].A.Ask(actx, buf, w.Nodes[p.server].Local(), p2p.IOVec{e.Data})
 				cf()
-				results[i] = askResult{n: n, err: err, resp: buf, took: time.Since(t0)}
+				results[i] = askResult{n: n, err: err, resp: buf, took: time.Since(t0), start: t0}
 			}()
 		}
 		for _, i := range groups[g] {
@@ -302,7 +303,8 @@ func checkAsks(t *rapid.T, sub string, w *stack.World, desc string, plans []askP
 		if ci, ok := closedBefore[p.server]; ok && ci <= i {
 			serverClosed = true
 		}
-		slack := time.Second
+		// one second of slack on a responsive machine, more when the machine stalled while the ask ran
+		slack := time.Second + 20*ev.MaxLagSince(r.start)
 		if r.took > p.deadline+slack {
 			fail("ask %d (%s) returned after %v, its context ended at %v", i, p.desc, r.took, p.deadline)
 		}
@@ -541,8 +543,9 @@ func TestC11MbappReplyOrigin(t *testing.T) {
 				ev.Sample(sub, desc)
 			}
 		}
-		select {
-		case o := <-done:
+		if o, returned := ev.PatientRecv(3*time.Second, done); !returned {
+			t.Fatalf("Ask did not return\ncase: %s", desc)
+		} else {
 			if o.err == nil && !bytes.Equal(o.buf[:o.n], genuine) {
 				who := "bytes nobody sent"
 				if bytes.Contains(o.buf[:o.n], []byte("C")) {
@@ -550,8 +553,6 @@ func TestC11MbappReplyOrigin(t *testing.T) {
 				}
 				t.Fatalf("Ask to %v succeeded with %d bytes that are not the asked peer's %d-byte answer: %s\ncase: %s", sAddr, o.n, len(genuine), who, desc)
 			}
-		case <-time.After(3 * time.Second):
-			t.Fatalf("Ask did not return\ncase: %s", desc)
 		}
 	})
 }
